@@ -15,9 +15,9 @@ use std::sync::OnceLock;
 
 pub const SCHEMA_SRC: &str = r#"
 entity Group in [Group];
-entity User in [Group] = { level: Long, active: Bool, manager?: User, friends: Set<User>, home?: Folder };
+entity User in [Group] = { level: Long, active: Bool, manager?: User, friends: Set<User>, home?: Folder, profile: { dept: String, boss?: User, ip: ipaddr } };
 entity Folder in [Folder] = { admin?: User, depth: Long };
-entity Doc in [Folder] = { owner: User, readers: Set<User>, parent?: Doc, public: Bool, team?: Group } tags String;
+entity Doc in [Folder] = { owner: User, readers: Set<User>, parent?: Doc, public: Bool, team?: Group, score: decimal, meta?: { reviewers: Set<User>, lead?: User } } tags String;
 action anyop;
 action readonly in [anyop];
 action view in [readonly] appliesTo { principal: [User], resource: [Doc], context: { via?: User, n: Long, docs?: Set<Doc> } };
@@ -116,6 +116,19 @@ pub const SHAPES: &[&str] = &[
     r#"forbid(principal, action in [Action::"view", Action::"edit"], resource) when { resource has parent && resource.parent has team && resource.owner in resource.parent.team };"#,
     r#"permit(principal, action in [Action::"view", Action::"edit"], resource) when { context has via && resource has parent && resource.parent has team && context.via in resource.parent.team };"#,
     r#"permit(principal, action in [Action::"view", Action::"edit"], resource) when { resource has parent && resource.parent has parent && resource.parent.parent has team && principal in resource.parent.parent.team };"#,
+    // nested records holding entity references, extension values, `like`, `isEmpty`, record literals
+    r#"permit(principal, action, resource) when { principal.profile has boss && principal.profile.boss.level > 1 };"#,
+    r#"permit(principal, action in [Action::"view", Action::"edit"], resource) when { resource.owner.profile.dept like "eng*" };"#,
+    r#"forbid(principal, action, resource) when { principal.profile.ip.isInRange(ip("10.0.0.0/8")) && !principal.active };"#,
+    r#"permit(principal, action in [Action::"view", Action::"edit"], resource) when { resource.score.greaterThan(decimal("1.5")) };"#,
+    r#"permit(principal, action in [Action::"view", Action::"edit"], resource) when { resource has meta && resource.meta.reviewers.contains(principal) };"#,
+    r#"forbid(principal, action in [Action::"view", Action::"edit"], resource) when { resource has meta && resource.meta has lead && resource.meta.lead has manager && resource.meta.lead.manager == principal };"#,
+    r#"permit(principal, action, resource) when { {a: principal.profile, b: 1}.a.dept == User::"{U}".profile.dept };"#,
+    r#"permit(principal, action in [Action::"view", Action::"edit"], resource) when { resource.readers.isEmpty() || resource.owner.profile has boss };"#,
+    r#"permit(principal, action, resource) when { User::"{U}".profile has boss && User::"{U}".profile.boss in Group::"{G}" };"#,
+    r#"forbid(principal, action in [Action::"view", Action::"edit"], resource) when { resource.owner.profile.ip.isLoopback() };"#,
+    r#"permit(principal, action in [Action::"view", Action::"edit"], resource) when { resource has meta && resource.meta has lead && resource.meta.lead.profile has boss && resource.meta.lead.profile.boss.profile.dept == principal.profile.dept };"#,
+    r#"forbid(principal, action in [Action::"view", Action::"edit"], resource) when { resource.owner.profile has boss && resource.owner.profile.boss.friends.contains(principal) };"#,
 ];
 
 /// shapes from this index on are deep attribute chains; the generator favours them
@@ -641,6 +654,13 @@ pub fn gen_store_ids(rng: &mut Rng) -> (Vec<Value>, StoreIds) {
         if rng.pct(60) {
             attrs.insert("home".into(), uid_json("Folder", pk(&mut *rng, &folders)));
         }
+        let mut prof = serde_json::Map::new();
+        prof.insert("dept".into(), json!(*rng.pick(&["eng", "engine", "ops", ""])));
+        if rng.pct(60) {
+            prof.insert("boss".into(), uid_json("User", pk(&mut *rng, &users)));
+        }
+        prof.insert("ip".into(), json!({"__extn": {"fn": "ip", "arg": *rng.pick(&["10.1.2.3", "127.0.0.1", "192.168.0.1/24", "::1"])}}));
+        attrs.insert("profile".into(), Value::Object(prof));
         let mut ps = vec![];
         for g in &groups {
             if rng.pct(35) {
@@ -658,6 +678,19 @@ pub fn gen_store_ids(rng: &mut Rng) -> (Vec<Value>, StoreIds) {
         }
         attrs.insert("readers".into(), Value::Array(rd));
         attrs.insert("public".into(), json!(rng.pct(50)));
+        attrs.insert("score".into(), json!({"__extn": {"fn": "decimal", "arg": *rng.pick(&["0.5", "1.5", "2.25", "-3.0"])}}));
+        if rng.pct(55) {
+            let mut meta = serde_json::Map::new();
+            let mut rv = vec![];
+            for _ in 0..rng.below(3) {
+                rv.push(uid_json("User", pk(&mut *rng, &users)));
+            }
+            meta.insert("reviewers".into(), Value::Array(rv));
+            if rng.pct(60) {
+                meta.insert("lead".into(), uid_json("User", pk(&mut *rng, &users)));
+            }
+            attrs.insert("meta".into(), Value::Object(meta));
+        }
         if rng.pct(60) {
             attrs.insert("parent".into(), uid_json("Doc", pk(&mut *rng, &docs)));
         }
